@@ -48,7 +48,7 @@ def run(ctx: common.Ctx):
         'SECT-/W2F-/ORF tag), and Spec.witness (Lean): the haplotype of exactly the named records '
         'yields the peptide as a digestion product (SECT / W2F forms only if the entry names them); '
         'entry strings must be unique per FASTA. non-trivial = run with >= 1 entry')
-    base = dict(vary=True, per_tx=(1, 7), max_size=6, window=24, witness=True)
+    base = dict(vary=True, per_tx=(1, 7), max_size=6, window=24, witness=True, as_frac=0.3)
     res = cv_checks.explore(ctx, ctx.n(260, 5000), dict(base, exception=None))
     s1 = dict(ctx.coverage['worker_stats'])
     judge(ctx, res, 'trypsin-noexc')
